@@ -718,3 +718,46 @@ MUTANTS += [
  dict(name='seed-C14-sticky-negative', prop='C14', patch='seeded/C14-sticky-negative-flag/patch.diff', expect='modr'),
  dict(name='seed-C10-bounded-retry', prop='C10', patch='seeded/C10-bounded-retry-fr-random/patch.diff', expect='reject|Fr::random'),
 ]
+MUTANTS += [
+ dict(name='c04-poly-fq2-multiply-sign', prop='C04', expect='poly|Fq2::multiply',
+      edits=[('src/bls12_381/fq2.cpp', '        this->c0.subtract(aa, bb);\n    }\n\n    void Fq2::square', '        this->c0.add(aa, bb);\n    }\n\n    void Fq2::square')]),
+ dict(name='c04-poly-fq6-square-term', prop='C04', expect='poly|Fq6::square',
+      edits=[('src/bls12_381/fq6.cpp', '        this->c2.add(s1, s2);\n        this->c2.add(this->c2, s3);', '        this->c2.add(s1, s2);\n        this->c2.add(this->c2, s4);')]),
+ dict(name='c04-poly-fq12-c014-wrong-slot', prop='C04', expect='poly|Fq12::multiply_by_c014',
+      edits=[('src/bls12_381/fq12.cpp', '        aa.multiply_by_c01(a.c0, c0, c1);\n        bb.multiply_by_c1(a.c1, c4);', '        aa.multiply_by_c01(a.c0, c1, c0);\n        bb.multiply_by_c1(a.c1, c4);')]),
+ dict(name='c04-poly-fq6-inverse-term', prop='C04', expect='poly|Fq6::inverse',
+      edits=[('src/bls12_381/fq6.cpp', '        this->c1.multiply(c1, t0);\n        this->c2.multiply(c2, t0);', '        this->c1.multiply(c2, t0);\n        this->c2.multiply(c1, t0);')]),
+ dict(name='c04-poly-fq12-conjugate-c0', prop='C04', expect='poly|Fq12::conjugate',
+      edits=[('src/bls12_381/fq12.cpp', '        this->c0.copy(a.c0);\n        this->c1.negate(a.c1);\n    }\n\n    void Fq12::random', '        this->c0.negate(a.c0);\n        this->c1.copy(a.c1);\n    }\n\n    void Fq12::random')]),
+ dict(name='c05-poly-add-x3-one-v', prop='C05', expect='poly|Projective',
+      edits=[('include/bls12_381/curve.hpp', """            this->x.square(r);
+            this->x.subtract(this->x, j);
+            this->x.subtract(this->x, v);
+            this->x.subtract(this->x, v);
+
+            // Y3 = r*(V - X3) - 2*S1*J""", """            this->x.square(r);
+            this->x.subtract(this->x, j);
+            this->x.subtract(this->x, v);
+
+            // Y3 = r*(V - X3) - 2*S1*J""")]),
+ dict(name='c05-poly-double-8c-to-4c', prop='C05', expect='poly|Projective',
+      edits=[('include/bls12_381/curve.hpp', """            c.multiply2(c);
+            c.multiply2(c);
+            c.multiply2(c);
+            this->y.subtract(this->y, c);""", """            c.multiply2(c);
+            c.multiply2(c);
+            this->y.subtract(this->y, c);""")]),
+ dict(name='c05-poly-mixed-add-i-2hh', prop='C05', expect='poly|Projective',
+      edits=[('include/bls12_381/curve.hpp', """            BaseField i;
+            i.multiply2(hh);
+            i.multiply2(i);""", """            BaseField i;
+            i.multiply2(hh);""")]),
+ dict(name='c05-benign-add-refactor-z3', prop='C05', benign=True, expect='',
+      edits=[('include/bls12_381/curve.hpp', """            this->z.add(a.z, b.z);
+            this->z.square(this->z);
+            this->z.subtract(this->z, z1z1);
+            this->z.subtract(this->z, z2z2);
+            this->z.multiply(this->z, h);""", """            this->z.multiply(a.z, b.z);
+            this->z.multiply2(this->z);
+            this->z.multiply(this->z, h);""")]),
+]
